@@ -465,7 +465,7 @@ func genOper(t *rapid.T) OpDesc {
 }
 
 var c06ExprGen = TreeGen{MaxDepth: 2, MaxWidth: 3, Budget: 8, Kinds: []string{"AND", "OR", "LIST"},
-	Leaf: func(t *rapid.T) Val { return genPrimVal(t, false, false) }, Options: true, Ambient: true}
+	Leaf: func(t *rapid.T) Val { return genPrimVal(t, false, false) }, Options: true, Ambient: true, Pasts: true}
 
 func genExpr(t *rapid.T) *Node {
 	switch rapid.IntRange(0, 11).Draw(t, "exclass") {
